@@ -513,9 +513,15 @@ def r03b_defeat_remaining(ctx):
                 if t.kind != 'test' or not isinstance(t.ast, ast.If):
                     continue
                 tt = t.ast.test
-                if isinstance(tt, ast.Compare) and len(tt.ops) == 1 and a._len_sel(tt.left, 'elected') and ctx.canon(tt.comparators[0], f) == 'E.nSeats':
+                fS = a.formula(tt)
+                if (isinstance(tt, ast.Compare) and len(tt.ops) == 1 and a._len_sel(tt.left, 'elected') and ctx.canon(tt.comparators[0], f) == 'E.nSeats') \
+                        or fS in (('lit', 'S', True), ('lit', 'S', False)):
                     lab = None
-                    if isinstance(tt.ops[0], ast.Lt):
+                    if fS == ('lit', 'S', True):
+                        lab = False           # `if E.seatsLeftToFill() > 0: elect else: defeat`
+                    elif fS == ('lit', 'S', False):
+                        lab = True
+                    elif isinstance(tt.ops[0], ast.Lt):
                         lab = False
                     elif isinstance(tt.ops[0], ast.GtE):
                         lab = True
